@@ -126,6 +126,13 @@ func maxLag(from, to time.Time) time.Duration {
 // stalled: the process was visibly not keeping up in the interval; real-time verdicts are suspended.
 func stalled(from, to time.Time) bool { return maxLag(from, to) > 50*time.Millisecond }
 
+// heavyStall is the suspension rule of the verdicts of c12/drop-sequence, which all have several seconds of
+// slack: a conforming client re-establishes an idle-closed connection within 6 s + 1 s per refused redial
+// (bound: 20 s + 1.5 s per refused redial) and loses a healthy connection only after 10 s without a pong
+// while it pings every 3 s. Fewer than 35 goroutine hand-overs and timers lie on either path, so scheduling
+// delays of at most 200 ms each cannot use up the 7 s (14 s) of slack; anything slower is not judged.
+func heavyStall(from, to time.Time) bool { return maxLag(from, to) > 200*time.Millisecond }
+
 // ---------------------------------------------------------------------------------------------
 // script
 
@@ -335,7 +342,10 @@ func queryPayload(scn, caller, call, size int) []byte {
 	return b
 }
 
-const freshCaller = 0xffff // calls issued by the harness itself (recovery probes, growth phase)
+const (
+	freshCaller = 0xffff // calls issued by the harness itself (recovery probes, growth phase)
+	pollCaller  = 0xfffe // calls issued by the harness after phase A with a script of their own (srvState.extra)
+)
 
 func drawStorm(c *core.Ctx, id int) *scenario {
 	sc := &scenario{id: id, keySeed: c.U64("keyseed"), storm: true, workers: c.Range("connections", 1, 2), timeout: 300 * time.Millisecond}
@@ -425,6 +435,8 @@ type srvState struct {
 	redial   []adnlsrv.DialPlan
 	held     map[*adnlsrv.Conn][]*heldAnswer
 	ended    map[*adnlsrv.Conn]time.Time // read loop of the connection ended (either side closed)
+	scripted map[*adnlsrv.Conn]bool      // connections the script itself closed or reset
+	extra    map[string]callScript       // scripts of calls the harness issues after phase A, by payload header
 	faultAt  []time.Time                 // moments the script disturbed a connection or a dial
 	unknown  int
 	pending  atomic.Int64 // timers not yet fired
@@ -520,8 +532,9 @@ func (st *srvState) onQuery(cn *adnlsrv.Conn, id [32]byte, body []byte) {
 	st.arrivals++
 	rec.seq = st.arrivals
 	st.records[string(body[:headerSize])] = rec
+	extra, isExtra := st.extra[string(body[:headerSize])]
 	var fault *closeFault
-	if caller != freshCaller {
+	if caller < pollCaller {
 		for i := range st.closes {
 			if st.closes[i].atQuery == rec.seq {
 				fault = &st.closes[i]
@@ -530,6 +543,7 @@ func (st *srvState) onQuery(cn *adnlsrv.Conn, id [32]byte, body []byte) {
 	}
 	if fault != nil {
 		st.noteFault()
+		st.scripted[cn] = true
 	}
 	// answers held back on this connection move one query closer to their release
 	var release []*heldAnswer
@@ -571,7 +585,9 @@ func (st *srvState) onQuery(cn *adnlsrv.Conn, id [32]byte, body []byte) {
 		return
 	}
 	q := callScript{kind: kNow}
-	if caller != freshCaller && caller < len(st.sc.calls) && call < len(st.sc.calls[caller]) {
+	if isExtra {
+		q = extra
+	} else if caller < len(st.sc.calls) && call < len(st.sc.calls[caller]) {
 		q = st.sc.calls[caller][call]
 	}
 	for _, k := range q.noise {
@@ -618,6 +634,7 @@ func (st *srvState) onQuery(cn *adnlsrv.Conn, id [32]byte, body []byte) {
 
 func startServer(sc *scenario) (*srvState, error) {
 	st := &srvState{sc: sc, records: map[string]*qRecord{}, held: map[*adnlsrv.Conn][]*heldAnswer{}, ended: map[*adnlsrv.Conn]time.Time{},
+		scripted: map[*adnlsrv.Conn]bool{}, extra: map[string]callScript{},
 		closes: append([]closeFault{}, sc.closes...), redial: append([]adnlsrv.DialPlan{}, sc.redial...)}
 	b := make([]byte, ed25519.SeedSize)
 	core.NewSplitMix(sc.keySeed).Fill(b)
@@ -745,6 +762,223 @@ func (o *outcome) freshCall() ([]byte, []byte, error) {
 	return q, resp, err
 }
 
+// liveConns returns the established connections that the server side has not closed.
+func (st *srvState) liveConns() []*adnlsrv.Conn {
+	var out []*adnlsrv.Conn
+	for _, cn := range st.srv.Conns() {
+		if closed, _ := cn.Closed(); !closed {
+			out = append(out, cn)
+		}
+	}
+	sort.Slice(out, func(i, j int) bool { return out[i].Dial < out[j].Dial })
+	return out
+}
+
+const (
+	closeOldest = iota // the connection with the lowest dial number
+	closeNewest        // the most recently established connection
+	closeAll
+)
+
+var closeNames = [...]string{"the oldest connection", "the newest connection", "all connections"}
+
+// closeIdle lets the server close (FIN or RST) connections while no call is in progress.
+func (o *outcome) closeIdle(which int, rst bool) {
+	st := o.st
+	conns := st.liveConns()
+	if len(conns) > 1 {
+		switch which {
+		case closeOldest:
+			conns = conns[:1]
+		case closeNewest:
+			conns = conns[len(conns)-1:]
+		}
+	}
+	st.mu.Lock()
+	st.noteFault()
+	for _, cn := range conns {
+		st.scripted[cn] = true
+	}
+	st.mu.Unlock()
+	var dials []string
+	for _, cn := range conns {
+		if rst {
+			cn.Reset()
+		} else {
+			cn.Close()
+		}
+		dials = append(dials, fmt.Sprint(cn.Dial))
+	}
+	o.notef("closed %d idle connection(s) (dial %s, rst=%v)", len(conns), strings.Join(dials, ","), rst)
+}
+
+// awaitRecovery: after the last scripted fault the client must come back by itself (no call is made while
+// waiting), then calls must succeed again. false: a violation was recorded in o.violation, or the verdict
+// is suspended because the process was stalled.
+func (o *outcome) awaitRecovery(redialFaults int, suspended func(from, to time.Time) bool) bool {
+	sc, st := o.sc, o.st
+	lf, _ := st.lastFault()
+	from := time.Now()
+	if lf.After(from) {
+		from = lf
+	}
+	// ping period 3 s: the second ping after a close fails and starts the redial; 1 s per refused redial
+	bound := 20*time.Second + time.Duration(redialFaults)*1500*time.Millisecond
+	var up time.Time
+	for {
+		if len(st.liveConns()) >= sc.workers {
+			up = time.Now()
+			break
+		}
+		if time.Since(from) > bound {
+			break
+		}
+		time.Sleep(20 * time.Millisecond)
+	}
+	if up.IsZero() {
+		if !suspended(from, time.Now()) {
+			o.violation = fmt.Sprintf("NO RECONNECT: %v after the last connection fault the server still has %d of %d connections (IsOK=%v, scheduling delay in that time at most %v); goroutines inside liteclient (whole process):\n%s", bound, len(st.liveConns()), sc.workers, o.cl.IsOK(), maxLag(from, time.Now()), liteclientStacks())
+		} else {
+			o.notef("no reconnect within %v, not judged: the process was stalled (scheduling delay up to %v)", bound, maxLag(from, time.Now()))
+		}
+		return false
+	}
+	o.notef("all %d connections re-established %v after the last fault", sc.workers, up.Sub(from).Round(time.Millisecond))
+	// later calls succeed: one success per connection in a row, shortly after the links are up again
+	streak, attempts := 0, 0
+	graceEnd := time.Now().Add(5*time.Second + 3*sc.timeout)
+	var lastErr error
+	for streak < sc.workers && time.Now().Before(graceEnd) {
+		q, resp, err := o.freshCall()
+		attempts++
+		if err == nil && !bytes.Equal(resp, F(q)) {
+			o.violation = fmt.Sprintf("MISROUTED: fresh call after the reconnect got %d bytes that are not F(its query)", len(resp))
+			return false
+		}
+		if err != nil {
+			streak, lastErr = 0, err
+			time.Sleep(50 * time.Millisecond)
+			continue
+		}
+		streak++
+	}
+	if streak < sc.workers {
+		if !stalled(up, time.Now()) {
+			o.violation = fmt.Sprintf("CALLS FAIL AFTER RECONNECT: all connections are up again since %v, but %d fresh calls did not produce %d successes in a row (last error: %v, IsOK=%v)", time.Since(up).Round(time.Millisecond), attempts, sc.workers, lastErr, o.cl.IsOK())
+		}
+		return false
+	}
+	if !o.cl.IsOK() {
+		o.violation = "IsOK() is false although all connections are up and calls succeed"
+		return false
+	}
+	o.notef("%d fresh calls until %d successes in a row", attempts, sc.workers)
+	return true
+}
+
+// longPoll: on the idle client one call per drawn delay is issued (all at once: the round-robin choice then
+// puts at least one on every connection when there are as many calls as connections); the server withholds
+// each answer for its delay (longer than the client's 10 s silence limit, far shorter than the deadline),
+// answers every ping and closes nothing meanwhile. Returns a violation or "".
+func (o *outcome) longPoll(c *core.Ctx, step int, delays []time.Duration, sizes []int) string {
+	sc, st := o.sc, o.st
+	recs := make([]callRecord, len(delays))
+	st.mu.Lock()
+	for i := range recs {
+		r := &recs[i]
+		r.caller, r.call = pollCaller, step*64+i
+		r.payload = queryPayload(sc.id, pollCaller, r.call, sizes[i])
+		st.extra[string(r.payload[:headerSize])] = callScript{kind: kDelay, delay: delays[i]}
+	}
+	st.mu.Unlock()
+	var wg sync.WaitGroup
+	for i := range recs {
+		wg.Add(1)
+		go func(r *callRecord) {
+			defer wg.Done()
+			r.start = time.Now()
+			r.resp, r.err = o.cl.Request(context.Background(), r.payload)
+			r.end = time.Now()
+		}(&recs[i])
+	}
+	done := make(chan struct{})
+	go func() { wg.Wait(); close(done) }()
+	limit := 2*sc.timeout + 15*time.Second
+	select {
+	case <-done:
+	case <-time.After(limit):
+		return fmt.Sprintf("DEADLOCK: the long-poll calls had not all returned %v after they were started (every call is bounded by the %v timeout); goroutines inside liteclient (whole process):\n%s", limit, sc.timeout, liteclientStacks())
+	}
+	totalCalls.Add(int64(len(recs)))
+	st.mu.Lock()
+	defer st.mu.Unlock()
+	for i := range recs {
+		r := &recs[i]
+		rec := st.records[string(r.payload[:headerSize])]
+		desc := fmt.Sprintf("long-poll call %d of step %d (answer withheld %v, deadline %v, started %v, returned after %v)", i, step, delays[i], sc.timeout,
+			r.start.Format("15:04:05.000"), r.end.Sub(r.start).Round(time.Millisecond))
+		var endedAt time.Time
+		gaveUp := false // the connection ended before the call did and the script had not touched it
+		if rec == nil {
+			desc += "; the server never received this query"
+		} else {
+			desc += fmt.Sprintf("; server: arrival on connection %d at +%v", rec.conn.Dial, rec.recvAt.Sub(r.start).Round(time.Microsecond))
+			if rec.sentAt.IsZero() {
+				desc += ", answer not sent"
+			} else {
+				desc += fmt.Sprintf(", answer written at +%v", rec.sentAt.Sub(r.start).Round(time.Millisecond))
+			}
+			if rec.writeErr != nil {
+				desc += fmt.Sprintf(", write error %v", rec.writeErr)
+			}
+			if t, ok := st.ended[rec.conn]; ok {
+				endedAt = t
+				desc += fmt.Sprintf(", connection ended at +%v", t.Sub(r.start).Round(time.Millisecond))
+				gaveUp = !t.After(r.end) && !st.scripted[rec.conn]
+			}
+		}
+		if r.err == nil {
+			if !bytes.Equal(r.resp, F(r.payload)) {
+				return fmt.Sprintf("MISROUTED: %s returned %d bytes that are not F(its query)", desc, len(r.resp))
+			}
+			o.notef("%s: own answer", desc)
+			continue
+		}
+		c.Class("call returned an error")
+		if heavyStall(r.start, r.end) {
+			c.Class("excused by a process stall")
+			o.notef("%s failed with %q; not judged: the process was stalled (scheduling delay up to %v)", desc, r.err, maxLag(r.start, r.end))
+			continue
+		}
+		desc += fmt.Sprintf("; scheduling delay during the call at most %v", maxLag(r.start, r.end))
+		if r.end.Sub(r.start) > sc.timeout+time.Second {
+			if stalled(r.start, r.end) {
+				c.Class("excused by a process stall")
+				continue
+			}
+			return fmt.Sprintf("LATE RETURN: %s returned its error (%v) more than 1 s after the deadline", desc, r.err)
+		}
+		if !liteclient.IsClientError(r.err) {
+			return fmt.Sprintf("%s failed with an error that is not a liteclient client error: %T %v", desc, r.err, r.err)
+		}
+		if rec == nil {
+			return fmt.Sprintf("LOST QUERY: %s failed with %q; every connection was up (and had just carried a call) when the call was made and the server disturbed nothing since", desc, r.err)
+		}
+		if gaveUp {
+			// since this connection was established the server closed nothing, refused nothing and answered every
+			// ping on it: the client gave the connection up by itself and lost the answer that was owed on it
+			return fmt.Sprintf("ANSWER LOST: %s failed with %q: the client dropped a connection that the server had not disturbed since it was established and on which every ping was answered", desc, r.err)
+		}
+		inTime := !rec.sentAt.IsZero() && sc.timeout-rec.sentAt.Sub(r.start) >= 200*time.Millisecond+20*maxLag(r.start, r.end)
+		if inTime && endedAt.IsZero() {
+			return fmt.Sprintf("ANSWER LOST: %s failed with %q although the server wrote the answer well before the deadline (scheduling delay during the call at most %v) on a connection that stayed up", desc, r.err, maxLag(r.start, r.end))
+		}
+		c.Class("long-poll failure not judged (answer not written in time by the harness)")
+		o.notef("%s failed with %q; not judged", desc, r.err)
+	}
+	return ""
+}
+
 func runScenario(sc *scenario) *outcome {
 	o := &outcome{sc: sc}
 	st, err := startServer(sc)
@@ -837,79 +1071,18 @@ func runScenario(sc *scenario) *outcome {
 
 	// connection faults while idle
 	if sc.idleClose != 0 {
-		conns := st.srv.Conns()
-		sort.Slice(conns, func(i, j int) bool { return conns[i].Dial < conns[j].Dial })
-		if sc.idleClose == 1 && len(conns) > 1 {
-			conns = conns[:1]
+		which := closeAll
+		if sc.idleClose == 1 {
+			which = closeOldest
 		}
-		st.mu.Lock()
-		st.noteFault()
-		st.mu.Unlock()
-		for _, cn := range conns {
-			if sc.idleRST {
-				cn.Reset()
-			} else {
-				cn.Close()
-			}
-		}
-		o.notef("closed %d idle connection(s)", len(conns))
+		o.closeIdle(which, sc.idleRST)
 	}
 
 	// recovery: the client must come back by itself
-	if lf, nf := st.lastFault(); nf > 0 {
-		from := time.Now()
-		if lf.After(from) {
-			from = lf
-		}
-		// ping period 3 s: the second ping after a close fails and starts the redial; 1 s per refused redial
-		bound := 20*time.Second + time.Duration(len(sc.redial))*1500*time.Millisecond
-		var up time.Time
-		for {
-			if len(st.srv.Conns()) >= sc.workers {
-				up = time.Now()
-				break
-			}
-			if time.Since(from) > bound {
-				break
-			}
-			time.Sleep(20 * time.Millisecond)
-		}
-		if up.IsZero() {
-			if !stalled(from, time.Now()) {
-				o.violation = fmt.Sprintf("NO RECONNECT: %v after the last connection fault the server still has %d of %d connections; goroutines inside liteclient (whole process):\n%s", bound, len(st.srv.Conns()), sc.workers, liteclientStacks())
-			}
+	if _, nf := st.lastFault(); nf > 0 {
+		if !o.awaitRecovery(len(sc.redial), stalled) {
 			return o
 		}
-		o.notef("all %d connections re-established %v after the last fault", sc.workers, up.Sub(from).Round(time.Millisecond))
-		// later calls succeed: one success per connection in a row, shortly after the links are up again
-		streak, attempts := 0, 0
-		graceEnd := time.Now().Add(5*time.Second + 3*sc.timeout)
-		var lastErr error
-		for streak < sc.workers && time.Now().Before(graceEnd) {
-			q, resp, err := o.freshCall()
-			attempts++
-			if err == nil && !bytes.Equal(resp, F(q)) {
-				o.violation = fmt.Sprintf("MISROUTED: fresh call after the reconnect got %d bytes that are not F(its query)", len(resp))
-				return o
-			}
-			if err != nil {
-				streak, lastErr = 0, err
-				time.Sleep(50 * time.Millisecond)
-				continue
-			}
-			streak++
-		}
-		if streak < sc.workers {
-			if !stalled(up, time.Now()) {
-				o.violation = fmt.Sprintf("CALLS FAIL AFTER RECONNECT: all connections are up again since %v, but %d fresh calls did not produce %d successes in a row (last error: %v, IsOK=%v)", time.Since(up).Round(time.Millisecond), attempts, sc.workers, lastErr, o.cl.IsOK())
-			}
-			return o
-		}
-		if !o.cl.IsOK() {
-			o.violation = "IsOK() is false although all connections are up and calls succeed"
-			return o
-		}
-		o.notef("%d fresh calls until %d successes in a row", attempts, sc.workers)
 	}
 
 	// let delayed answers drain so that the next phase sees a quiet process
@@ -998,7 +1171,7 @@ func (o *outcome) judge(c *core.Ctx) string {
 			}
 			return fmt.Sprintf("LOST QUERY: %s failed with %q; no connection had been disturbed", desc(), r.err)
 		}
-		if t, ok := st.ended[rec.conn]; ok && !t.After(r.end) && !sc.hasFault() && !stalled(r.start, r.end) {
+		if t, ok := st.ended[rec.conn]; ok && !t.After(r.end) && !sc.hasFault() && !heavyStall(r.start, r.end) {
 			// the server closed nothing, refused nothing and answered every ping; whatever it still owed on
 			// this connection could not be delivered because the client gave the connection up by itself
 			return fmt.Sprintf("ANSWER LOST: %s failed with %q: the client dropped a connection that the server never disturbed and on which every ping was answered", desc(), r.err)
@@ -1015,7 +1188,7 @@ func (o *outcome) judge(c *core.Ctx) string {
 			continue
 		}
 		if t, ok := st.ended[rec.conn]; ok && !t.After(r.end) {
-			if !sc.hasFault() && !stalled(r.start, r.end) {
+			if !sc.hasFault() && !heavyStall(r.start, r.end) {
 				// the server closed nothing, refused nothing and kept answering pings: the client gave up a
 				// healthy connection by itself and lost the answer that was owed on it
 				return fmt.Sprintf("ANSWER LOST: %s failed with %q; the server wrote the answer well before the deadline, never closed a connection and answered every ping, yet the client had dropped the connection by itself", desc(), r.err)
@@ -1324,9 +1497,145 @@ var longPollCheck = &core.Check{Name: "c12/long-poll", Quick: 1, Thorough: 24, F
 	return nil
 }}
 
+// c12/drop-sequence: what holds for the first connection must hold for every later one. One client (1..2
+// connections, deadline 18..20 s) makes a few quickly answered calls; the server then closes idle connections
+// and the self-recovery is verified as in c12/batch (no call is made until the server sees all connections
+// again, then one fresh call per connection succeeds in a row, IsOK). Then 2..4 further steps, each either
+//   - long-poll on the recovered client: one call per connection (or one more), answers withheld 10.5..13 s while
+//     the server answers every ping and closes nothing: every call must return its own answer; or
+//   - another idle close (FIN/RST) that includes the most recently re-established connection, optionally with
+//     1..2 refused redials, followed by the same verified self-recovery.
+//
+// One scenario per case; real time dominates (about 6 s per drop, 11-13 s per long-poll).
+var dropSeqCheck = &core.Check{Name: "c12/drop-sequence", Quick: 1, Thorough: 16, Fn: func(c *core.Ctx) error {
+	sc := &scenario{id: 7000 + c.Intn("id", 1000), keySeed: c.U64("keyseed"), workers: c.Range("connections", 1, 2)}
+	sc.timeout = time.Duration(c.Range("timeout.s", 18, 20)) * time.Second
+	callers := c.Range("callers", 1, 3)
+	per := c.Range("calls", 1, 2)
+	for i := 0; i < callers; i++ {
+		script := make([]callScript, per)
+		for k := range script {
+			script[k] = callScript{kind: kNow, size: c.Intn("size", 40)}
+		}
+		sc.calls = append(sc.calls, script)
+	}
+	sc.idleClose = 1 + c.Intn("first.close", 2) // the oldest connection / all connections
+	sc.idleRST = c.Bool("first.rst")
+	type step struct {
+		poll   bool
+		delays []time.Duration
+		sizes  []int
+		which  int
+		rst    bool
+		redial []adnlsrv.DialPlan
+	}
+	nsteps := c.Range("steps", 2, core.Scale(2, 4)) // one draw on either tier
+	steps := make([]step, nsteps)
+	var text []string
+	for i := range steps {
+		s := &steps[i]
+		// never two long-polls in a row: a case stays below about a minute
+		s.poll = c.Bool("step.poll") && (i == 0 || !steps[i-1].poll)
+		if s.poll {
+			var ds []string
+			for k, n := 0, sc.workers+c.Intn("poll.extra", 2); k < n; k++ {
+				s.delays = append(s.delays, time.Duration(c.URange("poll.delay.ms", 10500, 13000))*time.Millisecond)
+				s.sizes = append(s.sizes, c.Intn("poll.size", 40))
+				ds = append(ds, s.delays[k].String())
+			}
+			text = append(text, "long-poll "+strings.Join(ds, ","))
+			c.Class("step: long-poll after a recovery")
+			continue
+		}
+		s.which = closeNewest + c.Intn("close.which", 2) // the newest connection / all
+		s.rst = c.Bool("close.rst")
+		t := fmt.Sprintf("idle close of %s (rst=%v)", closeNames[s.which], s.rst)
+		if core.NewSplitMix(c.U64("close.redial")).Intn(3) == 0 {
+			for k, n := 0, c.Range("redials", 1, 2); k < n; k++ {
+				p := adnlsrv.DialPlan{Kind: []adnlsrv.DialKind{adnlsrv.DialReset, adnlsrv.DialCloseNow, adnlsrv.DialCloseAfterHello}[c.Choose("redial.kind", 3)]}
+				s.redial = append(s.redial, p)
+				t += fmt.Sprintf(" redial->%v", p.Kind)
+			}
+			c.Class("step: idle close after a recovery, refused redials")
+		}
+		text = append(text, t)
+		c.Class("step: idle close after a recovery")
+	}
+	script := sc.String() + "; then " + strings.Join(text, "; then ")
+	c.Note("scenario", script)
+	c.NonTrivial(script)
+	c.Class(fmt.Sprintf("%d connection(s)", sc.workers))
+	c.Checkpoint()
+
+	var o *outcome
+	fail := func(v string) error {
+		var sb strings.Builder
+		fmt.Fprintf(&sb, "%s\n  %s", v, script)
+		for _, s := range o.notes {
+			fmt.Fprintf(&sb, "\n  note: %s", s)
+		}
+		if o.st != nil {
+			ev := o.st.srv.Events()
+			if len(ev) > 40 {
+				ev = ev[len(ev)-40:]
+			}
+			for _, e := range ev {
+				fmt.Fprintf(&sb, "\n  server %s dial %d: %s", e.At.Format("15:04:05.000"), e.Dial, e.What)
+			}
+		}
+		return fmt.Errorf("%s", sb.String())
+	}
+	if err := core.Protect(func() error { o = runScenario(sc); return nil }); err != nil {
+		return err
+	}
+	totalScenarios.Add(1)
+	totalCalls.Add(int64(len(o.calls)))
+	if v := o.judge(c); v != "" {
+		return fail(v)
+	}
+	if !o.healthy {
+		c.Class("first recovery not judged (process stalled)")
+		return nil
+	}
+	for i, s := range steps {
+		var v string
+		err := core.Protect(func() error {
+			if s.poll {
+				v = o.longPoll(c, i+1, s.delays, s.sizes)
+				return nil
+			}
+			o.st.mu.Lock()
+			o.st.redial = append(o.st.redial, s.redial...)
+			o.st.mu.Unlock()
+			o.closeIdle(s.which, s.rst)
+			if !o.awaitRecovery(len(s.redial), heavyStall) {
+				v = o.violation
+				if v == "" {
+					v = "-"
+				}
+			}
+			return nil
+		})
+		if err != nil {
+			return err
+		}
+		if v == "-" {
+			c.Class("later recovery not judged (process stalled)")
+			c.Note("log", strings.Join(o.notes, " | "))
+			return nil
+		}
+		if v != "" {
+			return fail(fmt.Sprintf("step %d after the first recovery: %s", i+1, v))
+		}
+	}
+	c.Note("log", strings.Join(o.notes, " | "))
+	return nil
+}}
+
 func TestProp(t *testing.T) {
 	t.Run("long-outage", func(t *testing.T) { core.Run(t, outageCheck) })
 	t.Run("long-poll", func(t *testing.T) { core.Run(t, longPollCheck) })
+	t.Run("drop-sequence", func(t *testing.T) { core.Run(t, dropSeqCheck) })
 	t.Run("batch", func(t *testing.T) {
 		core.Run(t, batchCheck)
 		core.Extra(batchCheck.Name, "scenarios", totalScenarios.Load())
@@ -1335,4 +1644,4 @@ func TestProp(t *testing.T) {
 	})
 }
 
-func TestReplay(t *testing.T) { core.Replay(t, batchCheck, outageCheck, longPollCheck) }
+func TestReplay(t *testing.T) { core.Replay(t, batchCheck, outageCheck, longPollCheck, dropSeqCheck) }
